@@ -96,6 +96,17 @@ func (o *vectorOperator) initOutputs(ctx context.Context) error {
 	var highCardSide []labels.Labels
 	var errChan = make(chan error, 1)
 	go func() {
+		defer func() {
+			// A panic on this goroutine would terminate the process.
+			if e := recover(); e != nil {
+				if err, ok := e.(error); ok {
+					errChan <- errors.Wrap(err, "unexpected error")
+				} else {
+					errChan <- errors.Newf("unexpected error: %v", e)
+				}
+				close(errChan)
+			}
+		}()
 		var err error
 		highCardSide, err = o.lhs.Series(ctx)
 		if err != nil {
